@@ -2,6 +2,7 @@
 import DdnnfVerif.Model.Basic
 import DdnnfVerif.Model.Query
 import DdnnfVerif.Model.WFCheck
+import DdnnfVerif.Model.Features
 namespace Ddnnf
 
 def fmtInts (xs : List Int) : String := " ".intercalate (xs.map toString)
@@ -29,6 +30,12 @@ def answer (nodes : List NType) (n : Nat) (kind : String) (args : List String) :
   | "spec" => toString (specCount nodes n A)
   | "sat" => toString (satQuery nodes n A)
   | "core" => fmtInts (sortInts (coreDeadA nodes n A))
+  | "tt" => String.ofList ((allBits n).map fun b => if eval (assignOf b) nodes (rootIx nodes) then '1' else '0')
+  | "counts" => " ".intercalate ((counts nodes).toList.map toString)
+  | "satmarks" =>
+      let ms := satMarks nodes (A.map (fun f => -f))
+      String.ofList (ms.toList.map fun m => if m.1 || m.2 == 0 then '1' else '0')
+  | "cardpd" => " ".intercalate ((cardPD nodes n).map toString)
   | "models" => fmtCfgs (models nodes (rootIx nodes))
   | _ => "unknown-query"
 
